@@ -299,10 +299,15 @@ def run_gifti(case):
         V = (g.normal(size=(n, 3)) * 50).astype(np.float32)
         T = np.array([g.choice(n, 3, replace=False) for _ in range(m)], dtype=np.int32)
         img = gifti.GiftiImage()
-        img.add_gifti_data_array(gifti.GiftiDataArray(V, intent="NIFTI_INTENT_POINTSET",
-                                                      datatype="NIFTI_TYPE_FLOAT32"))
-        img.add_gifti_data_array(gifti.GiftiDataArray(T, intent="NIFTI_INTENT_TRIANGLE",
-                                                      datatype="NIFTI_TYPE_INT32"))
+        das = [gifti.GiftiDataArray(V, intent="NIFTI_INTENT_POINTSET",
+                                    datatype="NIFTI_TYPE_FLOAT32"),
+               gifti.GiftiDataArray(T, intent="NIFTI_INTENT_TRIANGLE",
+                                    datatype="NIFTI_TYPE_INT32")]
+        if case["seed"] % 3 == 0:
+            das.reverse()     # the format identifies the arrays by intent, not by position
+            obs["gifti_triangles_before_points"] = 1
+        for da in das:
+            img.add_gifti_data_array(da)
         src = os.path.join(top, rnd.choice(["lh.pial", "mesh_A", "x"]) + ".gii")
         nibabel.save(img, src)
         dest = os.path.join(top, "ds")
@@ -359,7 +364,12 @@ def run_gifti(case):
         on_disk = os.path.join(dest, want_dir, want_name + (".gz" if gz else ""))
         if not os.path.isfile(on_disk):
             v.append({"kind": "mesh-file-at-unexpected-path", "detail": f"{ctx}: {on_disk}"})
-        V2, T2 = M.read_precomputed_mesh(io.BytesIO(data))
+        try:
+            V2, T2 = M.read_precomputed_mesh(io.BytesIO(data))
+        except Exception as exc:  # noqa: BLE001
+            v.append({"kind": "converted-mesh-cannot-be-read-back", "detail":
+                      f"{ctx}: {type(exc).__name__}: {exc}"})
+            return {"violations": v, "obs": obs}
         Vw = V.astype(float)
         Tw = T.tolist()
         if coord is not None:
@@ -459,7 +469,12 @@ def run_vtk(case):
     obs = {"vtk_files": 1}
     ctx = f"vtk n={n} m={m} attrs={[a['values'].shape for a in attrs]} title_len={len(title)}"
     try:
-        M.save_mesh_as_neuroglancer_vtk(f, V, T, vertex_attributes=attrs or None, title=title)
+        # "an iterable of attributes": a list, a tuple or a one-shot generator
+        form = rnd.choice(["list", "list", "tuple", "generator"])
+        given = None if not attrs else (attrs if form == "list" else tuple(attrs)
+                                        if form == "tuple" else (a for a in attrs))
+        obs["attribute_iterables"] = {form: 1} if attrs else {}
+        M.save_mesh_as_neuroglancer_vtk(f, V, T, vertex_attributes=given, title=title)
         P, F, A = _parse_vtk(f.getvalue())
     except AssertionError as exc:
         return {"violations": [{"kind": "vtk-output-outside-the-accepted-subset",
@@ -473,6 +488,8 @@ def run_vtk(case):
             and set(A) == {a["name"] for a in attrs}):
         v.append({"kind": "vtk-content-differs", "detail": ctx})
     for a in attrs:
+        if a["name"] not in A:
+            continue      # already reported as vtk-content-differs
         want = np.asarray(a["values"], np.float32).reshape(n, -1)
         if not np.array_equal(np.array(A[a["name"]], dtype=np.float32), want):
             v.append({"kind": "vtk-attribute-differs", "detail": f"{ctx}: {a['name']}"})
@@ -592,6 +609,9 @@ def gates(obs, tier):
         "noncontiguous_vertex_arrays": obs.get("noncontiguous", 0) > 50,
         "mirroring_transforms": obs.get("mirroring", 0) > 100,
         "small_determinants": obs.get("small_det", 0) > 20,
+        "gifti_files_listing_triangles_first": obs.get("gifti_triangles_before_points", 0) > 20,
+        "vertex_attributes_given_as_generators": obs.get("attribute_iterables", {}).get(
+            "generator", 0) > 50,
         "integer_typed_vertex_arrays": obs.get("integer_typed_vertices", 0) > 100,
         "triangles_checked": obs.get("triangles_checked", 0) > 1000,
         "gifti_with_transform": obs.get("with_transform", 0) > 5,
